@@ -39,8 +39,27 @@ def cmp_op(op):
             x, y = a[1], b[1]
             r = {'lt': x < y, 'le': x <= y, 'gt': x > y, 'ge': x >= y, 'eq': x == y, 'ne': x != y}[op]
             return C(int(r), 'bool')
+        if op in ('eq', 'ne'):
+            # (in)equality against a field-less enum variant is a test of the discriminant
+            for x, y in ((a, b), (b, a)):
+                if x[0] == 'agg' and x[2] is not None and not x[3] and not x[1].startswith(('std::result', 'std::option')):
+                    dx = eng.discr_of(fr.body.crate, x)
+                    dy = eng.discr_of(fr.body.crate, y) if y[0] == 'agg' else T('discr', y)
+                    if is_int_const(dx) and is_int_const(dy):
+                        return C(int((dx[1] == dy[1]) == (op == 'eq')), 'bool')
+                    if is_int_const(dx):
+                        return T('Eq' if op == 'eq' else 'Ne', dy, dx)
         return T(op, a, b)
     return f
+
+
+def enum_eq(eng, st, fr, args, fn, site):
+    """PartialEq::eq where one side is a field-less enum variant: discriminant test; otherwise not summarised
+    (a workspace `derive(PartialEq)` body is inlined instead)"""
+    r = cmp_op('eq')(eng, st, fr, args, fn, site)
+    if r[0] == 'c' or (r[0] == 't' and r[1] in ('Eq', 'Ne')):
+        return r
+    return None
 
 
 def bin_val(op):
@@ -97,6 +116,25 @@ def checked(op):
     return f
 
 
+def checked_add_exact(ty):
+    """checked_add with its meaning spelled out: Some(a + b) when the sum fits the type, None otherwise"""
+    lo, hi = INT_RANGE_EARLY[ty]
+
+    def f(eng, st, fr, args, fn, site):
+        a, b = args[0], args[1]
+        if is_int_const(a) and is_int_const(b):
+            n = a[1] + b[1]
+            return ('agg', 'std::option::Option', 'Some', (C(n, ty),)) if lo <= n <= hi else ('agg', 'std::option::Option', 'None', ())
+        s_ = T('Add', a, b)
+        over = T('Gt', s_, C(hi, ty))
+        return [(('agg', 'std::option::Option', 'Some', (s_,)), [(over, '==', 0)]),
+                (('agg', 'std::option::Option', 'None', ()), [(over, '==', 1)])]
+    return f
+
+
+INT_RANGE_EARLY = {'u8': (0, 2**8 - 1), 'u16': (0, 2**16 - 1), 'u32': (0, 2**32 - 1), 'u64': (0, 2**64 - 1), 'usize': (0, 2**64 - 1)}
+
+
 def size_of(eng, st, fr, args, fn, site):
     crate = fr.body.crate
     targs = (fn or {}).get('targs') or []
@@ -146,7 +184,7 @@ def from_residual(eng, st, fr, args, fn, site):
         targs = ((fn or {}).get('resolved') or {}).get('targs') or []
         if len(targs) >= 3:
             crate = fr.body.crate
-            f_ty, e_ty = targs[-2], targs[-1]
+            e_ty, f_ty = targs[-2], targs[-1]      # impl<T, E, F: From<E>> FromResidual<Result<Infallible, E>> for Result<T, F>
             if crate.types[f_ty]['s'] == crate.types[e_ty]['s']:
                 return ('agg', 'std::result::Result', 'Err', (v[3][0],))
             tb = eng.find_from_impl(crate, e_ty, f_ty)
@@ -154,11 +192,39 @@ def from_residual(eng, st, fr, args, fn, site):
                 from .psi import FnInfo
                 alts = eng.apply_fn(st, fr, ('fn', FnInfo({'path': tb.path, 'resolved': {'path': tb.path}})), [v[3][0]])
                 if alts:
-                    return [(('agg', 'std::result::Result', 'Err', (x,)), c) for x, c in alts]
+                    return [(('agg', 'std::result::Result', 'Err', (x,)), c, e) for x, c, e in alts]
         return ('agg', 'std::result::Result', 'Err', (T('conv', v[3][0]),))
     if v[0] == 'agg' and v[2] == 'None':
         return ('agg', 'std::option::Option', 'None', ())
     return None
+
+
+INT_RANGE = {'u8': (0, 2**8 - 1), 'u16': (0, 2**16 - 1), 'u32': (0, 2**32 - 1), 'u64': (0, 2**64 - 1), 'usize': (0, 2**64 - 1),
+             'u128': (0, 2**128 - 1), 'i8': (-2**7, 2**7 - 1), 'i16': (-2**15, 2**15 - 1), 'i32': (-2**31, 2**31 - 1),
+             'i64': (-2**63, 2**63 - 1), 'isize': (-2**63, 2**63 - 1), 'i128': (-2**127, 2**127 - 1)}
+
+
+def int_try_from(src, dst):
+    """<dst as TryFrom<src>>::try_from(x): Ok(x) when x fits, Err otherwise, as alternatives over comparison atoms"""
+    (slo, shi), (dlo, dhi) = INT_RANGE[src], INT_RANGE[dst]
+
+    def f(eng, st, fr, args, fn, site):
+        x = args[0]
+        ok = ('agg', RES, 'Ok', (x if not is_int_const(x) else C(x[1], dst),))
+        err = ('agg', RES, 'Err', (('sym', 'TryFromIntError'),))
+        if is_int_const(x):
+            return ok if dlo <= x[1] <= dhi else err
+        out = []
+        conds_ok = []
+        if slo < dlo:
+            out.append((err, [(T('Lt', x, C(dlo, src)), '==', 1)]))
+            conds_ok.append((T('Lt', x, C(dlo, src)), '==', 0))
+        if shi > dhi:
+            out.append((err, conds_ok + [(T('Gt', x, C(dhi, src)), '==', 1)]))
+            conds_ok.append((T('Gt', x, C(dhi, src)), '==', 0))
+        out.append((ok, conds_ok))
+        return out if len(out) > 1 else ok
+    return f
 
 
 def conv(eng, st, fr, args, fn, site):
@@ -204,11 +270,39 @@ def hof(family, on, rebuild):
                 alts = eng.apply_fn(st, fr, args[1], [pay] if pay is not None else [])
                 if alts is None:
                     return None
-                for v, c2 in alts:
-                    out.append((rebuild(var, v), conds + c2))
+                for v, c2, eff in alts:
+                    out.append((rebuild(var, v), conds + c2, eff))
             else:
-                out.append((rebuild(var, None, keep=pay), conds))
-        return out if len(out) > 1 else out[0][0] if out and not out[0][1] else out
+                out.append((rebuild(var, None, keep=pay), conds, None))
+        if len(out) == 1 and not out[0][1] and (out[0][2] is None or len(out[0][2]) == len(st.effects)):
+            return out[0][0]
+        return out
+    return f
+
+
+def _rb_and_then_res(var, v, keep=None):
+    return v if var == 'Ok' and keep is None and v is not None else ('agg', RES, 'Err', (keep,))
+
+
+def _rb_and_then_opt(var, v, keep=None):
+    return v if var == 'Some' and keep is None and v is not None else ('agg', OPT, 'None', ())
+
+
+def _rb_or_else_res(var, v, keep=None):
+    return v if var == 'Err' and keep is None and v is not None else ('agg', RES, 'Ok', (keep,))
+
+
+def _rb_unwrap_or_else(on):
+    def rb(var, v, keep=None):
+        return v if var == on and keep is None and v is not None else keep
+    return rb
+
+
+def unwrap_or(family):
+    def f(eng, st, fr, args, fn, site):
+        a = 'Ok' if family == RES else 'Some'
+        out = [((pay if var == a else args[1]), conds) for var, pay, conds in _variants(args[0], family)]
+        return out if len(out) > 1 else out[0][0]
     return f
 
 
@@ -444,6 +538,56 @@ def same_ptr(eng, st, fr, args, fn, site):
 
 
 SUMMARIES = {
+    'std::convert::num::<impl std::convert::TryFrom<isize> for usize>::try_from': int_try_from('isize', 'usize'),
+    'std::convert::num::<impl std::convert::TryFrom<isize> for u64>::try_from': int_try_from('isize', 'u64'),
+    'std::convert::num::<impl std::convert::TryFrom<isize> for u32>::try_from': int_try_from('isize', 'u32'),
+    'std::convert::num::<impl std::convert::TryFrom<isize> for u16>::try_from': int_try_from('isize', 'u16'),
+    'std::convert::num::<impl std::convert::TryFrom<isize> for i64>::try_from': int_try_from('isize', 'i64'),
+    'std::convert::num::<impl std::convert::TryFrom<isize> for i32>::try_from': int_try_from('isize', 'i32'),
+    'std::convert::num::<impl std::convert::TryFrom<i64> for usize>::try_from': int_try_from('i64', 'usize'),
+    'std::convert::num::<impl std::convert::TryFrom<i64> for u64>::try_from': int_try_from('i64', 'u64'),
+    'std::convert::num::<impl std::convert::TryFrom<i64> for u32>::try_from': int_try_from('i64', 'u32'),
+    'std::convert::num::<impl std::convert::TryFrom<i64> for u16>::try_from': int_try_from('i64', 'u16'),
+    'std::convert::num::<impl std::convert::TryFrom<i64> for i32>::try_from': int_try_from('i64', 'i32'),
+    'std::convert::num::<impl std::convert::TryFrom<i64> for isize>::try_from': int_try_from('i64', 'isize'),
+    'std::convert::num::<impl std::convert::TryFrom<i32> for usize>::try_from': int_try_from('i32', 'usize'),
+    'std::convert::num::<impl std::convert::TryFrom<i32> for u64>::try_from': int_try_from('i32', 'u64'),
+    'std::convert::num::<impl std::convert::TryFrom<i32> for u32>::try_from': int_try_from('i32', 'u32'),
+    'std::convert::num::<impl std::convert::TryFrom<i32> for u16>::try_from': int_try_from('i32', 'u16'),
+    'std::convert::num::<impl std::convert::TryFrom<i32> for i64>::try_from': int_try_from('i32', 'i64'),
+    'std::convert::num::<impl std::convert::TryFrom<i32> for isize>::try_from': int_try_from('i32', 'isize'),
+    'std::convert::num::<impl std::convert::TryFrom<usize> for u64>::try_from': int_try_from('usize', 'u64'),
+    'std::convert::num::<impl std::convert::TryFrom<usize> for u32>::try_from': int_try_from('usize', 'u32'),
+    'std::convert::num::<impl std::convert::TryFrom<usize> for u16>::try_from': int_try_from('usize', 'u16'),
+    'std::convert::num::<impl std::convert::TryFrom<usize> for i64>::try_from': int_try_from('usize', 'i64'),
+    'std::convert::num::<impl std::convert::TryFrom<usize> for i32>::try_from': int_try_from('usize', 'i32'),
+    'std::convert::num::<impl std::convert::TryFrom<usize> for isize>::try_from': int_try_from('usize', 'isize'),
+    'std::convert::num::<impl std::convert::TryFrom<u64> for usize>::try_from': int_try_from('u64', 'usize'),
+    'std::convert::num::<impl std::convert::TryFrom<u64> for u32>::try_from': int_try_from('u64', 'u32'),
+    'std::convert::num::<impl std::convert::TryFrom<u64> for u16>::try_from': int_try_from('u64', 'u16'),
+    'std::convert::num::<impl std::convert::TryFrom<u64> for i64>::try_from': int_try_from('u64', 'i64'),
+    'std::convert::num::<impl std::convert::TryFrom<u64> for i32>::try_from': int_try_from('u64', 'i32'),
+    'std::convert::num::<impl std::convert::TryFrom<u64> for isize>::try_from': int_try_from('u64', 'isize'),
+    'std::convert::num::<impl std::convert::TryFrom<u32> for usize>::try_from': int_try_from('u32', 'usize'),
+    'std::convert::num::<impl std::convert::TryFrom<u32> for u64>::try_from': int_try_from('u32', 'u64'),
+    'std::convert::num::<impl std::convert::TryFrom<u32> for u16>::try_from': int_try_from('u32', 'u16'),
+    'std::convert::num::<impl std::convert::TryFrom<u32> for i64>::try_from': int_try_from('u32', 'i64'),
+    'std::convert::num::<impl std::convert::TryFrom<u32> for i32>::try_from': int_try_from('u32', 'i32'),
+    'std::convert::num::<impl std::convert::TryFrom<u32> for isize>::try_from': int_try_from('u32', 'isize'),
+    'std::convert::num::<impl std::convert::TryFrom<i128> for usize>::try_from': int_try_from('i128', 'usize'),
+    'std::convert::num::<impl std::convert::TryFrom<i128> for u64>::try_from': int_try_from('i128', 'u64'),
+    'std::convert::num::<impl std::convert::TryFrom<i128> for u32>::try_from': int_try_from('i128', 'u32'),
+    'std::convert::num::<impl std::convert::TryFrom<i128> for u16>::try_from': int_try_from('i128', 'u16'),
+    'std::convert::num::<impl std::convert::TryFrom<i128> for i64>::try_from': int_try_from('i128', 'i64'),
+    'std::convert::num::<impl std::convert::TryFrom<i128> for i32>::try_from': int_try_from('i128', 'i32'),
+    'std::convert::num::<impl std::convert::TryFrom<i128> for isize>::try_from': int_try_from('i128', 'isize'),
+    'std::convert::num::<impl std::convert::TryFrom<u128> for usize>::try_from': int_try_from('u128', 'usize'),
+    'std::convert::num::<impl std::convert::TryFrom<u128> for u64>::try_from': int_try_from('u128', 'u64'),
+    'std::convert::num::<impl std::convert::TryFrom<u128> for u32>::try_from': int_try_from('u128', 'u32'),
+    'std::convert::num::<impl std::convert::TryFrom<u128> for u16>::try_from': int_try_from('u128', 'u16'),
+    'std::convert::num::<impl std::convert::TryFrom<u128> for i64>::try_from': int_try_from('u128', 'i64'),
+    'std::convert::num::<impl std::convert::TryFrom<u128> for i32>::try_from': int_try_from('u128', 'i32'),
+    'std::convert::num::<impl std::convert::TryFrom<u128> for isize>::try_from': int_try_from('u128', 'isize'),
     'std::num::<impl i64>::to_ne_bytes': to_bytes(8),
     'std::num::<impl i32>::to_ne_bytes': to_bytes(4),
     'std::num::<impl i16>::to_ne_bytes': to_bytes(2),
@@ -476,6 +620,13 @@ SUMMARIES = {
     'std::option::Option::<T>::replace': opt_replace,
     'std::result::Result::<T, E>::map_err': hof(RES, 'Err', _rb_map_err),
     'std::result::Result::<T, E>::map': hof(RES, 'Ok', _rb_map_res),
+    'std::result::Result::<T, E>::and_then': hof(RES, 'Ok', _rb_and_then_res),
+    'std::option::Option::<T>::and_then': hof(OPT, 'Some', _rb_and_then_opt),
+    'std::result::Result::<T, E>::or_else': hof(RES, 'Err', _rb_or_else_res),
+    'std::result::Result::<T, E>::unwrap_or_else': hof(RES, 'Err', _rb_unwrap_or_else('Err')),
+    'std::option::Option::<T>::unwrap_or_else': hof(OPT, 'None', _rb_unwrap_or_else('None')),
+    'std::result::Result::<T, E>::unwrap_or': unwrap_or(RES),
+    'std::option::Option::<T>::unwrap_or': unwrap_or(OPT),
     'std::option::Option::<T>::map': hof(OPT, 'Some', _rb_map_opt),
     'std::option::Option::<T>::ok_or_else': hof(OPT, 'None', _rb_ok_or_else),
     'std::option::Option::<T>::ok_or': ok_or,
@@ -490,6 +641,7 @@ SUMMARIES = {
     'std::cmp::PartialOrd::gt': cmp_op('gt'),
     'std::cmp::PartialOrd::ge': cmp_op('ge'),
     'std::cmp::PartialEq::ne': cmp_op('ne'),
+    'std::cmp::PartialEq::eq': enum_eq,
     '<std::time::Duration as std::cmp::PartialOrd>::lt': cmp_op('lt'),
     '<std::time::Duration as std::cmp::PartialOrd>::le': cmp_op('le'),
     '<std::time::Duration as std::cmp::PartialOrd>::gt': cmp_op('gt'),
@@ -499,6 +651,7 @@ SUMMARIES = {
     '<nix::sys::time::TimeSpec as std::cmp::PartialOrd>::gt': cmp_op('gt'),
     '<nix::sys::time::TimeSpec as std::cmp::PartialOrd>::ge': cmp_op('ge'),
     '<nix::sys::time::TimeSpec as std::cmp::PartialEq>::eq': cmp_op('eq'),
+    '<nix::sys::time::TimeSpec as std::cmp::Ord>::cmp': lambda e, s, f, a, fn, site: T('ts_cmp', deref(e, s, a[0]), deref(e, s, a[1])),
     '<nix::sys::time::TimeSpec as std::ops::Add>::add': bin_val('ts_add'),
     '<nix::sys::time::TimeSpec as std::ops::Sub>::sub': bin_val('ts_sub'),
     '<nix::sys::time::TimeSpec as std::convert::From<libc::timespec>>::from': ts_from,
@@ -519,7 +672,7 @@ SUMMARIES = {
     'std::num::<impl u32>::checked_mul': checked('checked_mul'),
     'std::num::<impl u32>::checked_add': checked('checked_add'),
     'std::num::<impl u32>::saturating_mul': checked('saturating_mul'),
-    'std::num::<impl u16>::checked_add': checked('checked_add'),
+    'std::num::<impl u16>::checked_add': checked_add_exact('u16'),
     'std::num::<impl i64>::checked_add': checked('checked_add'),
     'std::f64::<impl f64>::abs': un_val('abs'),
     'std::f64::<impl f64>::ceil': un_val('ceil'),
